@@ -17,14 +17,14 @@ FACETS = {
     "C10": "VRFK",
     "C19": "VRFK",
     "C18": "VRFK",
-    "C09": "VRFCTNK",
+    "C09": "VRSFCTNK",
     "C11": "VRFK",
     "C12": "VRFK",
-    "C14": "VRSCK",
-    "C15": "VRSCTNK",
+    "C14": "VRSECK",
+    "C15": "VRSECTNK",
     "C16": "VRSEK",
-    "C17": "VRSTNK",
-    "C20": "VRSCTNK",
+    "C17": "VRSFTNK",
+    "C20": "VRSFCTNK",
 }
 
 
